@@ -267,7 +267,20 @@ func solveVC(vc *VC, obls []*Obl, opts SolveOpts) {
 		wg.Add(1)
 		go func(o *Obl) {
 			defer wg.Done()
+			prev, prevSolver, prevMs := o.Status, o.Solver, o.Millis
 			raceSingle(vc, o, base, opts)
+			if prev == "unsat" && !o.WantSat {
+				// the incremental pass had already discharged it: the stand-alone cross-check may confirm it, be
+				// inconclusive (then the earlier answer stands) or contradict it (sat: a disagreement, reported)
+				switch o.Status {
+				case "unsat", "disagree":
+				case "sat":
+					o.Status, o.Solver = "disagree", prevSolver+" (incremental) vs "+o.Solver
+				default:
+					o.Output = "stand-alone cross-check inconclusive (" + o.Output + "); discharged in the incremental pass"
+					o.Status, o.Solver, o.Millis = "unsat", prevSolver, prevMs
+				}
+			}
 		}(o)
 	}
 	wg.Wait()
@@ -287,6 +300,37 @@ func solveVC(vc *VC, obls []*Obl, opts SolveOpts) {
 			}
 		}
 		if n > 0 && n <= 12 {
+			// first the incremental formulations again with five times the per-query budget (some obligations are
+			// only ever decided there), then the stand-alone race
+			var und []*Obl
+			for _, o := range obls {
+				if o.WantSat || o.Status == "unsat" || o.Status == "sat" || o.Status == "disagree" || strings.HasPrefix(o.Status, "error") {
+					continue
+				}
+				und = append(und, o)
+			}
+			saveQ := opts.QuickMs
+			opts.QuickMs = saveQ * 5
+			notes := map[*Obl]string{}
+			for _, o := range und {
+				notes[o] = o.Output
+			}
+			runInc(und, true, "retry-ground")
+			var rest []*Obl
+			for _, o := range und {
+				if o.Status != "unsat" {
+					o.Status = "unknown"
+					rest = append(rest, o)
+				}
+			}
+			runInc(rest, false, "retry-full")
+			opts.QuickMs = saveQ
+			for _, o := range und {
+				if o.Status != "unsat" {
+					o.Status = "unknown"
+					o.Output = notes[o]
+				}
+			}
 			var wg2 sync.WaitGroup
 			for _, o := range obls {
 				if o.WantSat || o.Status == "unsat" || o.Status == "sat" || o.Status == "disagree" || strings.HasPrefix(o.Status, "error") {
